@@ -34,6 +34,7 @@ import OxiddModel.Tdd.DriverRc
 import OxiddModel.Num.DriverF64Count
 import OxiddModel.Num.DriverNaturalF64
 import OxiddModel.Mtbdd.DriverTermText
+import OxiddModel.Reorder.DriverStoreN
 
 open OxiddModel
 
@@ -85,7 +86,9 @@ def protos : List (String × Proto) := [
   ("tdd-rc", OxiddModel.Tdd.DriverRc.proto),
   ("f64count", OxiddModel.Num.F64C.Driver.proto),
   ("natf64", OxiddModel.Num.NatF64.Driver.proto),
-  ("termtext", OxiddModel.Mtbdd.TermText.Driver.proto)
+  ("termtext", OxiddModel.Mtbdd.TermText.Driver.proto),
+  ("reorder-store-tdd", OxiddModel.Reorder.SwapStoreN.Driver.protoTdd),
+  ("reorder-store-mtbdd", OxiddModel.Reorder.SwapStoreN.Driver.protoMtbdd)
 ]
 
 def main (args : List String) : IO UInt32 := do
